@@ -8,7 +8,7 @@ use crate::refchess::{Kind, Pos};
 use crate::framework::Tape;
 use serde_json::json;
 
-pub const RULE: &str = "game histories: real moves only, from legal roots incl. FEN roots with halfmove clock in {0,1,3,5,49,50,97..101,150} and no history, chosen with a shuffle bias (prefer undoing the move of two plies ago) so that repetitions, repetitions spoiled by a rights / e.p. difference and clocks crossing 100 are common; a second family interleaves search-like null moves and take-backs. After every step, against the reference's own list of earlier positions: is_repeated_position() <=> an earlier position since the last capture or pawn move has the same identity (both directions on real-move histories; with null moves on the stack only 'true => such a position exists'); is_stalemate_by_fifty_move_rule() <=> clock >= 100 and a legal move exists; is_stalemate_by_insufficient_material() is true for K v K and K+minor v K, false whenever a pawn, rook or queen is on the board or more than two minors remain, unconstrained otherwise. Search level ('draw_available_search'): when some legal move leads to a position drawn by the game history (repetition - possibly more than 50 plies back -, fifty-move rule, dead material), a depth 1-3 search with that history must not report a negative score. Non-trivial = history in which the expected repetition verdict is true at least once, or the clock crosses 99->100, or a repetition candidate is spoiled by a rights / e.p. difference; distinct by (root, op list).";
+pub const RULE: &str = "game histories: real moves only, from legal roots incl. FEN roots with halfmove clock in {0,1,3,5,49,50,97..101,150} and no history, chosen with a shuffle bias (prefer undoing the move of two plies ago) so that repetitions, repetitions spoiled by a rights / e.p. difference and clocks crossing 100 are common; a second family interleaves search-like null moves and take-backs. After every step, against the reference's own list of earlier positions: is_repeated_position() <=> an earlier position since the last capture or pawn move has the same identity (both directions on real-move histories; with null moves on the stack only 'true => such a position exists'); is_stalemate_by_fifty_move_rule() <=> clock >= 100 and a legal move exists; is_stalemate_by_insufficient_material() is true for K v K and K+minor v K, false whenever a pawn, rook or queen is on the board or more than two minors remain, unconstrained otherwise. Search level ('draw_available_search'): when some legal move leads to a position drawn by the game history (repetition - possibly more than 50 plies back -, fifty-move rule, dead material), a depth 1-3 search with that history must not report a negative score; 'far_back_repetition_search' applies the same demand to constructed games in which both kings walk closed tours of coprime lengths 3..8 while one side has spare pawns, so that the first recurrence of the whole position lies 24..112 plies back and the worse side is to move one ply before it. Non-trivial = history in which the expected repetition verdict is true at least once, or the clock crosses 99->100, or a repetition candidate is spoiled by a rights / e.p. difference; distinct by (root, op list).";
 
 #[derive(Default)]
 struct Obs {
